@@ -1026,6 +1026,40 @@ Qed.
 Lemma dupd_nil_inv ctx c' o : dupd ctx [] = (c', UOk o) -> c' = ctx /\ o = [].
 Proof. cbn [dupd]. intros H. inversion H. auto. Qed.
 
+
+Lemma low_bits_a w t : t < 4096 -> ((w * 4096 + t) mod 65536 / 16) mod 256 = t / 16.
+Proof. intros. lia. Qed.
+Lemma low_bits_b w t : t < 1024 -> ((w * 1024 + t) mod 65536 / 4) mod 256 = t / 4.
+Proof. intros. lia. Qed.
+Lemma low_bits_c w t : t < 256 -> ((w * 256 + t) mod 65536 / 1) mod 256 = t.
+Proof. intros. lia. Qed.
+Lemma m4 x t : ((x * 64 + t) mod 65536) mod 4 = t mod 4.
+Proof. lia. Qed.
+Lemma m16 x t : ((x * 64 + t) mod 65536) mod 16 = t mod 16.
+Proof. lia. Qed.
+Lemma m64 x t : ((x * 64 + t) mod 65536) mod 64 = t mod 64.
+Proof. lia. Qed.
+Lemma q1 w d d0 : d < 64 -> d0 < 64 ->
+  (((w * 64 + d) * 64 + d0) mod 65536 / 16) mod 256 = d * 4 + d0 / 16.
+Proof.
+  intros. replace ((w * 64 + d) * 64 + d0) with (w * 4096 + (d * 64 + d0)) by lia.
+  rewrite low_bits_a by lia. lia.
+Qed.
+Lemma q2 w d d0 d1 : d < 64 -> d0 < 64 -> d1 < 64 ->
+  ((((w * 64 + d) * 64 + d0) * 64 + d1) mod 65536 / 4) mod 256 = (d0 mod 16) * 16 + d1 / 4.
+Proof.
+  intros. replace (((w * 64 + d) * 64 + d0) * 64 + d1)
+    with ((w * 256 + d * 4 + d0 / 16) * 1024 + ((d0 mod 16) * 64 + d1)) by lia.
+  rewrite low_bits_b by lia. lia.
+Qed.
+Lemma q3 w d d0 d1 d2 : d < 64 -> d0 < 64 -> d1 < 64 -> d2 < 64 ->
+  (((((w * 64 + d) * 64 + d0) * 64 + d1) * 64 + d2) mod 65536 / 1) mod 256 = (d1 mod 4) * 64 + d2.
+Proof.
+  intros. replace ((((w * 64 + d) * 64 + d0) * 64 + d1) * 64 + d2)
+    with ((w * 65536 + d * 1024 + d0 * 16 + d1 / 4) * 256 + ((d1 mod 4) * 64 + d2)) by lia.
+  rewrite low_bits_c by lia. lia.
+Qed.
+
 Definition noWs (s : bytes) : Prop := forallb (fun c => negb (b64_ws c)) s = true.
 
 Ltac inv_step H Hc Hw :=
@@ -1073,6 +1107,7 @@ Proof.
         assert (Hl' : (length s <= n)%nat) by (cbn [length] in Hl; lia).
         specialize (IH s Hl' Hb Hw _ _ _ Hn0 Hz).
         subst. rewrite !mod_chain. pow2.
+        rewrite (q1 w d d0), (q2 w d d0 d1), (q3 w d d0 d1 d2) by lia.
         match goal with |- context [enc_spec (?a :: ?b :: ?c :: o2)] =>
           set (x1 := a); set (x2 := b); set (x3 := c) end.
         assert (Hg : [E d; E d0; E d1; E d2] = grp x1 x2 x3) by (unfold grp, x1, x2, x3; list_E).
@@ -1083,14 +1118,16 @@ Proof.
       * (* c4 = '=' : "xxx=" *)
         change (2 - 2) with 0 in *. change (0 + 1) with 1 in *.
         apply dupd_after_padding in Hn0; [|lia|exact Hb|exact Hw]. destruct Hn0 as [-> ->].
-        left. subst. rewrite !mod_chain in *. pow2. cbn [enc_spec]. list_E.
+        left. subst. rewrite !mod_chain in *. pow2. rewrite m4 in Hm.
+        rewrite (q1 w d d0), (q2 w d d0 d1) by lia. cbn [enc_spec]. list_E.
     + (* c3 = '=' : "xx==" *)
       change (4 - 2) with 2 in *. change (0 + 1) with 1 in *.
       destruct s as [|c4 s]; [apply dupd_nil_inv in Hn as [-> _]; cbn in Hz; discriminate Hz|].
       split_char Hb Hw c4. inv_step Hn Hcc4 Hwc4.
       change (2 - 2) with 0 in *. change (1 + 1) with 2 in *.
       apply dupd_after_padding in Hn0; [|lia|exact Hb|exact Hw]. destruct Hn0 as [-> ->].
-      left. subst. rewrite !mod_chain in *. pow2. cbn [enc_spec]. list_E.
+      left. subst. rewrite !mod_chain in *. pow2. rewrite m16 in Hm.
+      rewrite (q1 w d d0) by lia. cbn [enc_spec]. list_E.
   - (* c2 = '=' : only "A===" *)
     change (6 - 2) with 4 in *. change (0 + 1) with 1 in *.
     destruct s as [|c3 s]; [apply dupd_nil_inv in Hn0 as [-> _]; cbn in Hz; discriminate Hz|].
@@ -1100,7 +1137,7 @@ Proof.
     split_char Hb Hw c4. inv_step Hn Hcc4 Hwc4.
     change (2 - 2) with 0 in *. change (2 + 1) with 3 in *.
     apply dupd_after_padding in Hn0; [|lia|exact Hb|exact Hw]. destruct Hn0 as [-> ->].
-    right. pow2. assert (d = 0) by lia. subst. split; reflexivity.
+    right. pow2. rewrite m64 in Hm. assert (d = 0) by lia. subst. split; reflexivity.
 Qed.
 
 Lemma strip_ws_props src : forallb is_byte src = true ->
